@@ -495,3 +495,54 @@ Definition plain_names (e : elf) : bool :=
 Definition plain_complete (s : sec) : bool :=
   negb (is_compressed s) && negb (is_nobits s) && (0 <=? s_size s) &&
   (s_size s <=? zlen (s_stream s)).
+
+(* ====================================================================== domains of the
+   invariance theorems, as executable predicates *)
+(* --- gABI: a re-encoded section is stored plainly and completely, is not the carrier
+       of the debug link (whose payload the reader takes from the file, not from the
+       section contents), and the header values fit their fields --- *)
+Definition gabi_ok (le is64 : bool) (a : gabi_args) (s : sec) : bool :=
+  plain_complete s && negb (bytes_eqb (s_name s) n_debuglink) &&
+  fits_layout (spec_Elf_Chdr le is64)
+              (chdr_vals is64 ELFCOMPRESS_ZLIB (g_reserved a) (s_size s) (g_align a)).
+
+Fixpoint all_idx {A} (p : nat -> A -> bool) (i : nat) (l : list A) : bool :=
+  match l with [] => true | x :: r => p i x && all_idx p (S i) r end.
+
+Definition gabi_choice_ok (choice : nat -> option gabi_args) (e : elf) : bool :=
+  all_idx (fun i s => match choice i with
+                      | Some a => gabi_ok (e_le e) (e_is64 e) a s
+                      | None => true end) 0 (e_secs e).
+
+(* --- legacy GNU: ".debug_X" sections only, stored plainly and completely, size fits the
+       8-byte field, the zlib stream is not empty; the choice is per NAME (sections that
+       share a name are re-encoded together: renaming one of two would change which one
+       the name denotes) --- *)
+Definition zgnu_ok (a : zgnu_args) (s : sec) : bool :=
+  plain_complete s && is_prefix p_debug (s_name s) && (s_size s <? 2 ^ 64) &&
+  negb (zlen (z_blob a) =? 0).
+Definition zgnu_choice_ok (choice : nat -> option zgnu_args) (e : elf) : bool :=
+  let zn := chosen_names_from choice 0 (e_secs e) in
+  all_idx (fun i s => match choice i with
+                      | Some a => zgnu_ok a s
+                      | None => negb (name_in (s_name s) zn) end) 0 (e_secs e).
+
+(* --- a well-formed .gnu_debuglink payload --- *)
+Definition debuglink_ok (name pad : list Z) (crc : Z) : bool :=
+  forallb (fun b => negb (b =? 0)) name && forallb (Z.eqb 0) pad &&
+  (length pad =? debuglink_padlen name)%nat && (0 <=? crc) && (crc <? 2 ^ 32).
+
+(* replace slot k *)
+Fixpoint set_nth {A} (k : nat) (x : A) (l : list A) : list A :=
+  match l, k with
+  | [], _ => []
+  | _ :: r, O => x :: r
+  | y :: r, S k' => y :: set_nth k' x r
+  end.
+
+(* ====================================================================== non-vacuity:
+   the "stored" codec (a stream IS its content) satisfies the zlib law [deflated],
+   so the hypotheses of the invariance theorems are satisfiable *)
+Definition inflate_stored (blob : list Z) (n : Z) : option (list Z * bool) :=
+  if n =? 0 then Some (blob, true)
+  else Some (firstn (Z.to_nat n) blob, zlen blob <=? n).
